@@ -62,7 +62,7 @@ Section Disc.
                         match ps_find_ck tuple ck (psr_subs r) with
                         | Some o => ps_drop_key (pss_key o) (psr_subs r)
                         | None => psr_subs r
-                        end)) m, [(tuple, token, psr_observe r)])))))).
+                        end)) m, [(name, tuple, token, psr_observe r)])))))).
       { apply ps_when_d; [apply ps_disc1_disc; apply ps_obs_added_d1|].
         unfold ps_track. apply ps_when_d; [apply ps_disc1_disc; apply ps_cnt_track_d1|constructor]. }
       destruct (ps_find_ck tuple ck (psr_subs r)) as [o|]; [|exact H].
